@@ -33,6 +33,16 @@ def handle (s : Sexp) : String :=
   -- in the model the helper's broadcast is a lock-holding action, so it cannot run inside that
   -- window; it runs after the waiter has parked, wakes it, and the waiter returns
   | .list [.atom "wgprobe"] => "probe unlocked=0 returned=1"
+  -- accounting of the launch helpers (Launch = Inc; go { defer Done; op }): n goroutines running ⇒
+  -- counter n; all ended (by return or Goexit) ⇒ counter 0 and Wait returns (thread programs
+  -- `add 1 … add (-1)`, FunProps/C14 `balanced_counter`)
+  | .list (.atom "wgacct" :: args) =>
+    let n := match args.find? (fun a => match a with | .list (.atom "kinds" :: _) => true | _ => false) with
+      | some (.list (_ :: ks)) => ks.length
+      | _ => 0
+    s!"acct n={n} running={n} after=0 waitstuck=0"
+  -- free-running rounds of Wait racing the last Done: no waiter stays parked with counter 0 (`no_stuck_wg`)
+  | .list (.atom "wgstress" :: _) => "stress stuck=0"
   | _ => "bad-op"
 
 end FunModel.DrvC14
